@@ -4,6 +4,7 @@ import (
 	"encoding/json"
 	"fmt"
 	"os"
+	"time"
 
 	sb "github.com/onosproject/onos-config/pkg/southbound/gnmi"
 	"github.com/openconfig/gnmi/proto/gnmi"
@@ -14,21 +15,22 @@ import (
 // and fault script, not an oracle of state: reconcile picks are hints that are executed only if
 // the id really is pending in the real work set.
 type Step struct {
-	K    string                       `json:"k"`    // set rollback hexec run begin exec crash restart connup conndown devrestart devfail drain observe probe
-	C    string                       `json:"c"`    // controller: tx prop cfg mast conn
-	ID   string                       `json:"id"`   // reconcile id (cfg/mast: target)
-	A    string                       `json:"a"`    // actor (exec)
-	H    string                       `json:"h"`    // handler name
-	T    string                       `json:"t"`    // target
-	Conn string                       `json:"conn"` // connection id
-	Code int                          `json:"code"` // devfail: gRPC code
-	Cnt  int                          `json:"cnt"`  // devfail: burst length
-	Idx  int                          `json:"idx"`  // rollback index
-	Sync bool                         `json:"sync"`
-	Fine bool                         `json:"fine"`
-	Ch   map[string]map[string]string `json:"ch"`
-	Auto bool                         `json:"auto"` // chosen by the drain, not by the behaviour
-	Pol  string                       `json:"pol"`  // drain: "" seeded random | newest | oldest (which pending work goes first)
+	K      string                       `json:"k"`    // set rollback hexec run begin exec crash restart connup conndown devrestart devfail drain observe probe
+	C      string                       `json:"c"`    // controller: tx prop cfg mast conn
+	ID     string                       `json:"id"`   // reconcile id (cfg/mast: target)
+	A      string                       `json:"a"`    // actor (exec)
+	H      string                       `json:"h"`    // handler name
+	T      string                       `json:"t"`    // target
+	Conn   string                       `json:"conn"` // connection id
+	Code   int                          `json:"code"` // devfail: gRPC code
+	Cnt    int                          `json:"cnt"`  // devfail: burst length
+	Idx    int                          `json:"idx"`  // rollback index
+	Sync   bool                         `json:"sync"`
+	Fine   bool                         `json:"fine"`
+	Ch     map[string]map[string]string `json:"ch"`
+	Auto   bool                         `json:"auto"`             // chosen by the drain, not by the behaviour
+	During []Step                       `json:"during,omitempty"` // hexec (the Watch step): reconciles run while the handler has not yet read its stream
+	Pol    string                       `json:"pol"`              // drain: "" seeded random | newest | oldest (which pending work goes first)
 }
 
 // Scenario is what TLC exports: constants of the world plus the behaviour.
@@ -117,6 +119,24 @@ func (w *World) Step(st Step) error {
 		h, ok := w.handlers[st.H]
 		if !ok {
 			done = false
+			break
+		}
+		if g := h.actor.pausedGate(); len(st.During) > 0 && g != nil && g.Op == "tx.Watch" {
+			// The handler subscribes, and is slow to take the first event of its stream: the given reconciles run in
+			// between (no event plumbing is awaited: the store may be blocked on the unread stream), then it reads.
+			h.holdCh = make(chan struct{})
+			done, err = h.Exec()
+			if err == nil {
+				time.Sleep(30 * time.Millisecond) // the store's watch goroutine has read the record it replays
+				for _, d := range st.During {
+					if _, derr := w.Deliver(d.C, w.cfgCtlKey(d.C, d.ID), false); derr != nil {
+						err = derr
+						break
+					}
+				}
+			}
+			close(h.holdCh)
+			h.holdCh = nil
 			break
 		}
 		done, err = h.Exec()
@@ -244,6 +264,7 @@ func (w *World) recordLine(st Step, done bool) (*Line, error) {
 	if st.Ch == nil {
 		st.Ch = map[string]map[string]string{}
 	}
+	st.During = nil // the recorded step names the handler; what ran meanwhile shows in the state
 	l := Line{N: w.stepNo, Act: st, Done: done}
 	w.stepNo++
 	if err := w.snapshot(&l); err != nil {
